@@ -247,6 +247,33 @@ def check(program: Program, run: Run) -> None:
             run.ob("C14/R2 source reaches the availability set", f"do_join:{need}", ok, where=dj.loc())
             if not ok:
                 run.finding(f"C14/availability-missing:QueryBuilder.do_join:{need}", f"do_join does not pass {need} to join.validate: tables available through it are reported as missing (valid joins rejected)", where=dj.loc(), rule="R2")
+        # ... and decided exactly for the two shapes of state that matter: the expression handed to validate() is evaluated with
+        # concrete one-element FROM / CTE lists and an UPDATE target (and once more with an empty FROM list); every source
+        # must be an element of the result (`self._from or [self._update_table]` names all three and still drops one)
+        from ..symex import Frame, ListV, Obj, One
+        tblc = program.cls("Table")
+        for from_n in (1, 0):
+            A, T_, W = Obj(tblc, {}, "<from item>"), Obj(tblc, {}, "<update target>"), Obj(tblc, {}, "<cte>")
+            ev2 = Evaluator(program)
+            o2 = ev2.self_obj(qb, {"_from": ListV((One(A),) if from_n else (), "list"), "_update_table": T_, "_with": ListV((One(W),), "list")})
+            fr2 = Frame(dj, qb, o2, dj.module)
+            fr2.env[dj.params[0]] = o2
+            try:
+                val = ev2.consume_lazy(ev2.eval(expand(base), fr2))
+            except AnalysisError:
+                val = None
+            if not (isinstance(val, ListV) and all(isinstance(i, One) for i in val.items)):
+                continue      # not a concrete list under this evaluation: the read-set rule above stands alone
+            got = [i.value for i in val.items]
+            for need, obj in (("_from", A), ("_update_table", T_), ("_with", W)):
+                if need == "_from" and not from_n:
+                    continue
+                ok = any(g is obj for g in got)
+                run.ob("C14/R2 source is an element of the availability list", f"do_join:{need} (FROM {'non-empty' if from_n else 'empty'})", ok, where=dj.loc())
+                if not ok:
+                    run.finding(f"C14/availability-missing:QueryBuilder.do_join:{need}",
+                                f"do_join hands `{ast.unparse(expand(base))[:80]}` to join.validate: with a {'non-empty' if from_n else 'empty'} FROM list {need} is not among the available "
+                                "tables, so a join condition on it is rejected although the table is a source of the statement", where=dj.loc(), rule="R2")
         ok = second is not None and "_joins" in reads_through_helpers(expand(second))
         run.ob("C14/R2 source reaches the availability set", "do_join:_joins", ok, where=dj.loc())
         if not ok:
